@@ -61,6 +61,7 @@ MUST_VIOLATE = [
     ("dev_UnicastToAll", "plausible bug"),
     ("dev_PingSkippedWhenActive", "seeded change: active client never pinged"),
     ("dev_FlushWriteMayTruncate", "seeded change: flush may truncate"),
+    ("dev_CloseOvertakesMessages", "plausible bug"), ("dev_BroadcastAbortsOnDeadPeer", "plausible bug"),
     ("reach_ParallelHandlers", "reachability"), ("reach_BroadcastToTwo", "reachability"),
     ("reach_UnicastDropped", "reachability"), ("reach_QuiescentDone", "reachability"),
     ("reach_TimeoutLive", "reachability"), ("reach_MsgAfterVanish", "reachability"),
@@ -184,8 +185,8 @@ def validate_batches(ctx, batches, counters, tag="tr"):
     return {o: tuple(v) for o, v in out.items()}
 
 
-def harness_random(binp, nruns, first, maxc, seed_shift, chatty=0, bigpush=0):
-    p = run_bin(binp, ["random", str(nruns), str(first), str(maxc), str(chatty), str(bigpush)], timeout=1500,
+def harness_random(binp, nruns, first, maxc, seed_shift, special=(0, 0, 0, 0)):
+    p = run_bin(binp, ["random", str(nruns), str(first), str(maxc)] + [str(x) for x in special], timeout=1500,
                 env={"VERIF_SEED": vlib.seed() + seed_shift})
     if p.returncode != 0:
         raise ToolError("wsasync random failed rc=%s: %s" % (p.returncode, p.stderr[-2000:]))
@@ -227,11 +228,11 @@ def replay_and_judge(ctx, binp, behaviours, origin, counters, strict):
         if not pending:
             break
         evs, res = harness_replay(binp, [behaviours[i] for i in pending], settle)
-        runs = split_runs(evs)
+        byid = {r[0]["run"]: r for r in split_runs(evs)}
         nxt = []
         for k, i in enumerate(pending):
             results[i] = res[k]
-            final_events[i] = runs[k] if k < len(runs) else []
+            final_events[i] = byid.get(res[k]["run"], [])
             if not res[k]["ok"]:
                 nxt.append(i)
         pending = nxt
@@ -239,6 +240,9 @@ def replay_and_judge(ctx, binp, behaviours, origin, counters, strict):
     counters["iterations_compared"] = counters.get("iterations_compared", 0) + iters
     for i in pending:
         r = results[i]
+        if (r["fail"] or {}).get("skipped"):
+            counters["not_run_after_hangs"] = counters.get("not_run_after_hangs", 0) + 1
+            continue
         forced = not (r["fail"] or {}).get("hang")
         if not strict and not forced:
             counters["not_forceable"] = counters.get("not_forceable", 0) + 1
@@ -492,6 +496,11 @@ def run_inner(tier, replay):
         ok = sum(1 for r in res.values() if r["ok"])
         ctx.add_part(origin, behaviours=len(beh), replayed_exactly=ok,
                      with_inverted_starts=sum(1 for b in beh if b["inverted"]),
+                     unicasts_to_a_client_that_left=sum(1 for b in beh for st in b["steps"]
+                                                        if st["a"] == "Loop_Flush" and st["msg"]["k"] == "uni" and not st["to"]),
+                     close_polled_after_messages_in_one_iteration=sum(
+                         1 for b in beh for i, st in enumerate(b["steps"][1:], 1)
+                         if st["a"] == "Loop_RecvErr" and b["steps"][i - 1]["a"] == "Loop_RecvMsg" and b["steps"][i - 1]["c"] == st["c"]),
                      steps=sum(len(b["steps"]) for b in beh))
         ctx.cov["evaluations"] += sum(r["iterations"] for r in res.values())
         ctx.cov["traces_validated_against_impl"] += len(beh)
@@ -509,8 +518,12 @@ def run_inner(tier, replay):
         # the first runs of every process are "chatty client under a short heartbeat" scenarios
         nchat = 2 if thorough else 1
         # ... followed by "burst of 256 KiB unicasts and broadcasts at idle clients, one of them reading late"
+        # then "several clients x several messages (+ Close) per write within one poll interval" and "unicasts and
+        # broadcasts flushed after a client vanished (reset: seen by the read; dropped: seen by the heartbeat)"
         nbig = 2 if thorough else 1
-        outs = list(ex.map(lambda k: harness_random(binp, per, 1 + k * per, 8, k, nchat, nbig), range(nproc)))
+        nvol = 3 if thorough else 1
+        ndead = 4 if thorough else 1
+        outs = list(ex.map(lambda k: harness_random(binp, per, 1 + k * per, 8, k, (nchat, nbig, nvol, ndead)), range(nproc)))
     events = [e for evs, _ in outs for e in evs]
     runs = split_runs(events)
     stats = {}
@@ -534,6 +547,9 @@ def run_inner(tier, replay):
                  events=stats, pools=sorted({x["workers"] for x in scen}), clients=sorted({x["clients"] for x in scen}),
                  heartbeat_runs=sum(1 for x in scen if x["heartbeat"]), chatty_heartbeat_runs=sum(1 for x in scen if x.get("chatty")),
                  bigpush_late_reader_runs=sum(1 for x in scen if x.get("bigpush")),
+                 volley_runs=sum(1 for x in scen if x.get("volley")),
+                 deadwrite_runs={k: sum(1 for x in scen if x.get("deadwrite") and x.get("dead_by") == k) for k in ("rst", "fin")},
+                 messages_and_close_in_one_write=sum(x.get("plans", []).__str__().count("VolleyClose") for x in scen),
                  internal_app_runs=sum(1 for x in scen if x["internal_app"]),
                  early_shutdown_runs=sum(1 for x in scen if x["early_shutdown"]),
                  poll_us=sorted({x["poll_us"] for x in scen})[:12])
@@ -543,8 +559,11 @@ def run_inner(tier, replay):
         ctx.add_part("InvocationInversion examples", examples=counters["inversion_examples"])
 
     # ---- 4. self-test of the binding ----------------------------------------------------------------------------
-    good = [r for r in runs if r[0]["nw"] == 1]
-    selftest(ctx, binp, good if good else runs, beh_all, [r for r in runs if r[0]["hb"] == 1])
+    if ctx.violations:
+        ctx.add_part("self-test", skipped="violations were found; the self-test runs only after a clean validation")
+    else:
+        good = [r for r in runs if r[0]["nw"] == 1]
+        selftest(ctx, binp, good if good else runs, beh_all, [r for r in runs if r[0]["hb"] == 1])
 
     ctx.add_part("lock-step", **{k: v for k, v in counters.items() if k != "inversion_examples"})
     ctx.cov["rule"] = ("evaluations = log records validated by TLC + loop iterations compared with TLC's prediction; "
